@@ -76,6 +76,33 @@ PROPS = {
     },
 }
 
+PROPS.update({
+    "C15": {
+        "level": "proof",
+        "lean_modules": ["ApdVerif.Props.C15"],
+        "streams": [{"stream": "order", "n": {"quick": 40000, "thorough": 800000}}],
+        "projections": ["result"],
+        "oracle_tags": ["C15"],
+        "explanation": "theorems: Decimal.Cmp = sign of the exact difference on all non-NaN operands (all three code paths); CmpTotal antisymmetric, transitive, zero iff same representation, agrees with Cmp, exponent tie-break, form order. tie: order stream (triples) through the model; search: the same laws evaluated on implementation outputs",
+    },
+    "C17": {
+        "level": "proof",
+        "lean_modules": ["ApdVerif.Props.C17"],
+        "streams": [{"stream": "conv", "n": {"quick": 30000, "thorough": 600000}}],
+        "projections": ["result", "integ", "frac"],
+        "oracle_tags": ["C17"],
+    },
+    "C19": {
+        "level": "proof",
+        "lean_modules": ["ApdVerif.Props.C19"],
+        "streams": [{"stream": "digits", "n": {"quick": 15000, "thorough": 300000}, "thorough_args": ["-extreme"]},
+                    {"stream": "arith", "ops": ["reduce"], "n": {"quick": 15000, "thorough": 200000}}],
+        "projections": ["result", "count", "value", "repr", "aux"],
+        "oracle_tags": ["C19"],
+        "trusted_extra": ["the float expression int64(float64(bl)/digitsToBitsRatio) of NumDigits' estimate path is modelled as ndigits(2^bl)-1; the digits stream checks NumDigits itself at 2^k, 2^k-1, 10^j, 10^j-1 for every bit length it covers"],
+    },
+})
+
 _known = None
 
 
